@@ -297,13 +297,13 @@ func ruleRunPlanEntry(r *Run, rule string) {
 					}
 				}
 			}
-			if e.Kind == EvAssign && len(e.Lhs) == len(e.Rhs) {
+			if res := e.Results(); e.Kind == EvAssign && len(e.Lhs) == len(res) {
 				for k := range e.Lhs {
-					if v := ValueKey(lf.Info, e.Rhs[k]); strings.HasPrefix(v, "method:"+pkgSM+".States.") {
+					if v := ValueKey(lf.Info, res[k]); strings.HasPrefix(v, "method:"+pkgSM+".States.") {
 						entry = strings.TrimPrefix(v, "method:"+pkgSM+".States.")
 						entryObj = ObjOf(lf.Info, e.Lhs[k])
 					}
-					if cl := compositeOf(e.Rhs[k]); cl != nil {
+					if cl := compositeOf(res[k]); cl != nil {
 						if v := keyValue(cl, "Next"); v != nil {
 							if vk := ValueKey(lf.Info, v); strings.HasPrefix(vk, "method:") {
 								entry = strings.TrimPrefix(vk, "method:"+pkgSM+".States.")
